@@ -1,7 +1,7 @@
 use crate::ast::{BinaryOp, Commented, Expr, RecordEntry, RecordKey, SpannedExpr};
 use crate::ast_to_source::{
     expr_to_source, format_record_key, lambda_body_needs_parens, needs_parens_in_binop,
-    needs_parens_in_postfix,
+    needs_parens_in_postfix, needs_parens_in_unary, postfix_op_to_source, unary_op_to_source,
 };
 use crate::values::LambdaArg;
 
@@ -96,8 +96,66 @@ fn format_single_line(expr: &SpannedExpr) -> String {
                 .collect();
             format!("{{{}}}", entries_str.join(", "))
         }
+        // A commented list or record further down only keeps its comments in multi-line form
+        _ if contains_comments(expr) => "\n".to_string(), // Placeholder that forces multiline
         // For everything else, use the existing expr_to_source
         _ => expr_to_source(expr),
+    }
+}
+
+/// Whether a list, record or do block anywhere inside the expression carries comments
+fn contains_comments(expr: &SpannedExpr) -> bool {
+    match &expr.node {
+        Expr::List(items) => items
+            .iter()
+            .any(|c| c.has_comments() || contains_comments(&c.node)),
+        Expr::Record(entries) => entries.iter().any(|c| {
+            c.has_comments()
+                || contains_comments(&c.node.value)
+                || match &c.node.key {
+                    RecordKey::Dynamic(key) | RecordKey::Spread(key) => contains_comments(key),
+                    _ => false,
+                }
+        }),
+        Expr::DoBlock {
+            statements,
+            return_expr,
+        } => {
+            statements
+                .iter()
+                .any(|c| c.has_comments() || contains_comments(&c.node))
+                || return_expr.has_comments()
+                || contains_comments(&return_expr.node)
+        }
+        Expr::Lambda { body, .. } => contains_comments(body),
+        Expr::Conditional {
+            condition,
+            then_expr,
+            else_expr,
+        } => {
+            contains_comments(condition)
+                || contains_comments(then_expr)
+                || contains_comments(else_expr)
+        }
+        Expr::Assignment { value, .. } => contains_comments(value),
+        Expr::Output { expr } => contains_comments(expr),
+        Expr::Call { func, args } => contains_comments(func) || args.iter().any(contains_comments),
+        Expr::Access { expr, index } => contains_comments(expr) || contains_comments(index),
+        Expr::BinaryOp { left, right, .. } => contains_comments(left) || contains_comments(right),
+        Expr::DotAccess { expr, .. }
+        | Expr::UnaryOp { expr, .. }
+        | Expr::PostfixOp { expr, .. }
+        | Expr::Spread(expr) => contains_comments(expr),
+        _ => false,
+    }
+}
+
+/// Wrap an already formatted operand in parentheses when its position needs them
+fn wrap_formatted(needs_parens: bool, formatted: String) -> String {
+    if needs_parens {
+        format!("({})", formatted)
+    } else {
+        formatted
     }
 }
 
@@ -147,6 +205,39 @@ fn format_multiline(expr: &SpannedExpr, max_cols: usize, indent: usize) -> Strin
             statements,
             return_expr,
         } => format_do_block_multiline(statements, return_expr, max_cols, indent),
+        Expr::UnaryOp { op, expr: inner } => format!(
+            "{}{}",
+            unary_op_to_source(op),
+            wrap_formatted(
+                needs_parens_in_unary(inner),
+                format_expr_impl(inner, max_cols, indent)
+            )
+        ),
+        Expr::PostfixOp { op, expr: inner } => format!(
+            "{}{}",
+            wrap_formatted(
+                needs_parens_in_postfix(inner),
+                format_expr_impl(inner, max_cols, indent)
+            ),
+            postfix_op_to_source(op)
+        ),
+        Expr::Spread(inner) => format!("...{}", format_expr_impl(inner, max_cols, indent)),
+        Expr::Access { expr: inner, index } => format!(
+            "{}[{}]",
+            wrap_formatted(
+                needs_parens_in_postfix(inner),
+                format_expr_impl(inner, max_cols, indent)
+            ),
+            format_expr_impl(index, max_cols, indent)
+        ),
+        Expr::DotAccess { expr: inner, field } => format!(
+            "{}.{}",
+            wrap_formatted(
+                needs_parens_in_postfix(inner),
+                format_expr_impl(inner, max_cols, indent)
+            ),
+            field
+        ),
         // For other expression types, fall back to single-line
         _ => expr_to_source(expr),
     }
